@@ -36,7 +36,17 @@ def run(ctx):
 
     # ------------------------------------------------------------------ R2 chunk-size line
     R2 = ctx.rule("C13-R2", "a malformed or missing chunk-size line closes the response and raises (InvalidChunkLength / ProtocolError); an empty line is not accepted as zero; the size is parsed base 16 after cutting chunk extensions at ';'", "E4 on _update_chunk_length")
-    c13_rows.r2_chunk_size_line(ctx, R2)
+    R10 = ctx.rule("C13-R10", "a chunk-size line is accepted only if it consists of hex digits: int(x, 16) alone also accepts '+', '-', blanks, '_' and '0x', so one corrupted byte can turn a size into the terminating zero", "E10 effect rows of _update_chunk_length (a decision about the field's shape on the accepting path)")
+    c13_rows.r2_chunk_size_line(ctx, R2, R10)
+    # read() / read(n) / read1() on a chunked body do not use urllib3's chunk reader at all: http.client parses the size lines itself.
+    # Its source is read the same way as _safe_read's (A1): the same int(line, 16) without a test of the line's shape is the same hole.
+    rn = m.find_method("http.client.HTTPResponse", "_read_next_chunk_size")
+    if rn is not None:
+        ints = [c for c in astq.calls(rn.node) if astq.call_text(c) == "int" and len(c.args) == 2 and astq.text(c.args[1]) == "16"]
+        shape = [c for c in astq.calls(rn.node) if (isinstance(c.func, ast.Attribute) and c.func.attr in ("fullmatch", "match", "isalnum", "isdigit", "issubset", "translate")) or astq.call_text(c) == "all"]
+        ctx.sites(R10, len(ints), 1, "int(line, 16) in http.client's chunk-size reader")
+        ctx.ob(R10, "http.client.HTTPResponse._read_next_chunk_size", "the standard library's chunk-size reader (used by read / read(n) / read1 on chunked bodies) checks the line's shape before converting it", bool(shape),
+               "" if shape else "http.client converts the size line with int(line, 16) alone: '+0', '-0', ' 0' end the body normally for read(), read(n) and read1() whatever urllib3's own chunk reader does", node=rn.node)
 
     # ------------------------------------------------------------------ R3 chunk payload primitive
     R3 = ctx.rule("C13-R3", "chunk payloads and their CRLFs are read only through the length-enforcing primitive _safe_read (which raises IncompleteRead on a short chunk)", "E8")
